@@ -85,6 +85,33 @@ def value_search(e, out):
                 return 'value differs under %s: %d vs %d' % (dict(zip(vs, c)), r[2 * i], r[2 * i + 1])
     return None
 
+def audit(chk, lines, impl, tags, nseeds):
+    """the property itself on the implementation: for every case whose result is an expression different from the input, the
+    width of the result and its value under nseeds pseudo-random valuations (one batch through the extracted Expr.eval)"""
+    todo = [(l[6:-1], i, t) for l, i, t in zip(lines, impl, tags) if not i.startswith(('E ', 'X ', 'FUEL')) and i != l[6:-1]]
+    if not todo: return 0
+    sizes = run_model('exprlaws', [x for e, o, t in todo for x in ('(size %s)' % e, '(size %s)' % o)])
+    cases = []
+    for e, o, t in todo:
+        for sd in range(nseeds): cases.append((sd, e, {})); cases.append((sd, o, {}))
+    vals = XC.model_eval(cases)
+    bad = {}
+    for k, (e, o, t) in enumerate(todo):
+        why = None
+        if sizes[2 * k] != sizes[2 * k + 1]: why = 'width %s became %s' % (sizes[2 * k], sizes[2 * k + 1])
+        else:
+            for sd in range(nseeds):
+                a, b = vals[2 * (k * nseeds + sd)], vals[2 * (k * nseeds + sd) + 1]
+                if a is not None and b is not None and a != b: why = 'value %d became %d under valuation seed %d' % (a, b, sd); break
+        if why: bad.setdefault(t.split('/')[0], []).append((e, o, why))
+    chk.cov['audited_results'] = len(todo); chk.cov['audit_valuations_per_case'] = nseeds
+    for tag, items in sorted(bad.items())[:8]:
+        items.sort(key=lambda x: len(x[0]))
+        e, o, why = items[0]
+        chk.violation('expr_simp breaks C05 on %s -> %s: %s; %d audited cases of family %s' % (e[:300], o[:200], why, len(items), tag),
+                      dict(case='(simp %s)' % e, impl=o, why=why, family=tag, count=len(items)))
+    return len(bad)
+
 def run(tier):
     chk = Check('C05', tier)
     if not chk.prove():
@@ -115,6 +142,8 @@ def run(tier):
                        'permuted/re-associated and embedded in random contexts; typed random trees depth<=6 over all node kinds and widths 1..64. Compared: full result trees. '
                        'Non-trivial = distinct input that the model rewrites to something else')
     chk.cov['samples'] = [dict(case=l[:300], model=m[:200], impl=i[:200]) for l, m, i in list(zip(lines, model, impl))[::max(1, len(lines) // 6)][:6]]
+    # audit of the implementation's own results, whether or not the model agrees: width and value of every rewritten case
+    aud = audit(chk, lines, impl, tags, 6 if tier == 'quick' else 16)
     mism = [(l, m, i, t) for l, m, i, t in zip(lines, model, impl, tags) if m != i]
     bytag = {}
     for x in mism: bytag.setdefault(x[3].split('/')[0], []).append(x)
